@@ -117,3 +117,16 @@ def uf_rule_defined(name) -> 'bool':
 def spec_call_target(node):
     """a rule reference runs the linked rule, else the rule the context finds under that name"""
     return node._rule._parse if node._rule else uf_find_rule(node.name)
+
+
+def spec_skip_step(f: 'Frame') -> 'Frame':
+    """one step of `->e` over input that e does not match: whitespace and comments if there are any here, else one character"""
+    return spec_at(f, uf_ws_end(f.cursor) if uf_ws_end(f.cursor) != f.cursor.pos else f.cursor.pos + 1)
+
+
+def spec_skip_frame(exp: 'func:PARSE', f: 'Frame') -> 'Frame':
+    """the frame `->e` finally parses e on: the first one on the skipping trajectory that is at the end of the text or where the
+    lookahead &e succeeds.  (Tail recursion `F(x) = x if stop(x) else F(step(x))`: an equation that has a solution whatever
+    step does, so the definition is consistent; that the code's loop reaches the frame is the termination measure of the loop.)"""
+    return (f if f.cursor.pos >= f.cursor.len or out_ok(exp, spec_fresh(f))
+            else spec_skip_frame(exp, spec_skip_step(f)))
